@@ -47,6 +47,9 @@ def decode(proto, data):
   return out
 
 
+TS = 1500000000      # timestamp of every datapoint the harness sends; the relay's own metrics carry the wall clock
+
+
 def run_case(case, step_hook=None):
   hard_pct = case.get('hard_pct', 1.25)
   dests = DEST_TRIPLES[:case['ndest']]
@@ -56,7 +59,8 @@ def run_case(case, step_hook=None):
     USE_FLOW_CONTROL=bool(case.get('flow')), DYNAMIC_ROUTER=bool(case.get('dynamic')),
     DYNAMIC_ROUTER_MAX_RETRIES=case.get('max_retries', 1), DESTINATION_PROTOCOL=case['protocol'],
     DESTINATIONS=[dest_string(d) for d in dests], RELAY_METHOD='consistent-hashing', REPLICATION_FACTOR=1,
-    DIVERSE_REPLICAS=False, ROUTER_HASH_TYPE='carbon_ch', TAG_RELAY_NORMALIZED=False, LOG_LISTENER_CONN_SUCCESS=False)
+    DIVERSE_REPLICAS=False, ROUTER_HASH_TYPE='carbon_ch', TAG_RELAY_NORMALIZED=False, LOG_LISTENER_CONN_SUCCESS=False,
+    program='carbon-relay', instance=None)
   t = Trace()
   t.sim = sim
   t.client = client
@@ -73,6 +77,11 @@ def run_case(case, step_hook=None):
   t.closing_seen = {}
   t.step_checks = []
   t.paused_history = []
+  t.own_drops = {d: 0 for d in dests}      # the relay's own periodic metrics discarded at a full queue
+  t.own_accepted = {d: 0 for d in dests}
+  t.reported = {}                          # full metric name -> values reported by recordMetrics()
+  t.records = 0
+  real_record = None
   try:
     root = MultiService()
     service = b.service
@@ -92,7 +101,15 @@ def run_case(case, step_hook=None):
 
         def send(metric, datapoint):
           before = len(f.queue)
-          nonprio = sum(1 for m, dp in f.queue if dp[1] not in t.priority_ids)
+          if datapoint[0] != TS:
+            # one of the relay's own periodic metrics (recordMetrics): an ordinary datapoint to the queue
+            real_send(metric, datapoint)
+            if len(f.queue) == before + 1:
+              t.own_accepted[d] += 1
+            else:
+              t.own_drops[d] += 1
+            return
+          nonprio = sum(1 for m, dp in f.queue if dp[1] not in t.priority_ids or dp[0] != TS)
           real_send(metric, datapoint)
           accepted = len(f.queue) == before + 1
           t.arrivals[d].append((datapoint[1], 'normal', accepted, before, nonprio))
@@ -112,6 +129,13 @@ def run_case(case, step_hook=None):
       t.arrivals[None].append((datapoint[1], 'normal', True, None, None))
     fake.sendDatapoint = fake_send
     fake.sendHighPriorityDatapoint = fake_send
+
+    real_record = env.need(b.instrumentation, 'relay_record')
+
+    def relay_record(metric, value):
+      t.reported.setdefault(metric, []).append(value)
+      real_record(metric, value)
+    b.instrumentation.relay_record = relay_record
 
     receivers = []
 
@@ -149,10 +173,12 @@ def run_case(case, step_hook=None):
               new = decode('pickle', data[pos:])
             seen_bytes[id(tr2)] = len(data)
             for m, dp in new:
+              if int(dp[0]) != TS:
+                continue           # the relay's own periodic metrics
               t.written[d].append(int(dp[1]))
               t.events.append(('written', d, int(dp[1])))
           if tr2.disconnecting and id(tr2) not in t.closing_seen:
-            t.closing_seen[id(tr2)] = {'dest': d, 'queue': [dp[1] for m, dp in f.queue],
+            t.closing_seen[id(tr2)] = {'dest': d, 'queue': [dp[1] for m, dp in f.queue if dp[0] == TS],
                                        'written': list(t.written[d]), 'stopped': t.stop_snapshot is not None}
             t.events.append(('closing', d))
 
@@ -179,13 +205,13 @@ def run_case(case, step_hook=None):
           counter[0] += 1
           i = counter[0]
           t.all_ids.append(i)
-          b.events.metricReceived('m.%d' % (i % 61), (1500000000, i))
+          b.events.metricReceived('m.%d' % (i % 61), (TS, i))
       elif kind == 'self':
         counter[0] += 1
         i = counter[0]
         t.all_ids.append(i)
         t.priority_ids.add(i)
-        mgr.sendHighPriorityDatapoint('carbon.relays.self.%d' % (i % 3), (1500000000, i))
+        mgr.sendHighPriorityDatapoint('carbon.relays.self.%d' % (i % 3), (TS, i))
       elif kind in ('connect_ok', 'connect_fail', 'lost', 'pause', 'resume'):
         d, c = conn(op[1])
         ok = False
@@ -210,11 +236,19 @@ def run_case(case, step_hook=None):
         sim.advance(float(op[1]))
       elif kind == 'stop':
         if t.stop_snapshot is None:
-          t.stop_snapshot = {d: [dp[1] for m, dp in f.queue] for d, f in t.factories.items()}
+          t.stop_snapshot = {d: [dp[1] for m, dp in f.queue if dp[0] == TS] for d, f in t.factories.items()}
           t.events.append(('stop',))
           root.stopService()
       elif kind == 'recv_connect':
         add_receiver()
+      elif kind == 'record':
+        # the instrumentation timer fires: the relay reports its counters as datapoints of its own, which go
+        # through the same pipeline into the same queues
+        if t.stop_snapshot is None:
+          t.records += 1
+          b.instrumentation.recordMetrics()
+        else:
+          t.skipped += 1
       else:
         raise HarnessError('unknown op %r' % (op,))
       harvest()
@@ -259,8 +293,9 @@ def run_case(case, step_hook=None):
         harvest()
         if n == 0:
           break
-    t.final_queues = {d: [dp[1] for m, dp in f.queue] for d, f in t.factories.items()}
-    t.final_buffer = [dp[1] for m, dp in fake.queue]
+    t.final_queues = {d: [dp[1] for m, dp in f.queue if dp[0] == TS] for d, f in t.factories.items()}
+    t.final_queue_lens = {d: len(f.queue) for d, f in t.factories.items()}
+    t.final_buffer = [dp[1] for m, dp in fake.queue if dp[0] == TS]
     t.final_states = {d: (f.connector.state if getattr(f, 'connector', None) else None) for d, f in t.factories.items()}
     t.stats = dict(b.instrumentation.stats)
     t.router_dests = set(d for d in dests if mgr.router.hasDestination(d))
@@ -271,4 +306,6 @@ def run_case(case, step_hook=None):
     t.log_errors = list(b.log_errors)
     return t
   finally:
+    if real_record is not None:
+      b.instrumentation.relay_record = real_record
     simreactor.restore_client()
